@@ -318,12 +318,18 @@ Fixpoint starts_of (cs : list value) (last_end : Z) : list Z :=
            end
   end.
 
-(* walkStruct: where each field ends (computed from the last field backwards) *)
-Fixpoint ends_of (cs : list value) (starts : list Z) (fend : Z) : list Z * Z :=     (* (ends, nextPos before the first) *)
+(* walkStruct: where each field ends (computed from the last field backwards).  [nend]: the end
+   of the innermost node being walked (NoPos at the top): a node that is a part of it is not
+   charged with code beyond it - the positions of nodes added to the tree need not be those of
+   their text *)
+Definition node_field_end (nend : Z) (c : value) : Z :=
+  if valid nend && (nend <? vend c) then nend else vend c.
+
+Fixpoint ends_of (nend : Z) (cs : list value) (starts : list Z) (fend : Z) : list Z * Z :=     (* (ends, nextPos before the first) *)
   match cs, starts with
   | c :: cs', s :: ss' =>
-      let (es, nextpos) := ends_of cs' ss' fend in
-      ((if is_node c then vend c else nextpos) :: es, s)
+      let (es, nextpos) := ends_of nend cs' ss' fend in
+      ((if is_node c then node_field_end nend c else nextpos) :: es, s)
   | _, _ => ([], fend)
   end.
 
@@ -357,7 +363,7 @@ Section Walk.
   Variable script : list value -> list value -> list edit.
 
   (* changeFinder.Walk *)
-  Fixpoint walk (fuel : nat) (r : region) (from to : value) : option wres :=
+  Fixpoint walk (fuel : nat) (nend : Z) (r : region) (from to : value) : option wres :=
     match fuel with
     | O => None
     | S k =>
@@ -373,7 +379,7 @@ Section Walk.
           | VNil _, _ => Some {| w_equal := false; w_to := to; w_log := [] |}        (* "if from.IsNil() { return }" *)
           | VRef _ _ _, VNil _ => changed
           | VRef _ _ a, VRef t i b =>
-              match walk k r a b with
+              match walk k (if n_isnode (info from) then vend from else nend) r a b with
               | None => None
               | Some w =>
                   let to' := VRef t i (w_to w) in
@@ -381,11 +387,11 @@ Section Walk.
               end
           | VStruct _ xs, VStruct t ys =>
               let ss := starts_of xs (fst r) in
-              let es := fst (ends_of xs ss (snd r)) in
+              let es := fst (ends_of nend xs ss (snd r)) in
               match (fix go (xs ys : list value) (ss es : list Z) : option (bool * list value * list region) :=
                        match xs, ys, ss, es with
                        | x :: xs', y :: ys', s :: ss', e :: es' =>
-                           match walk k (s, e) x y with
+                           match walk k nend (s, e) x y with
                            | None => None
                            | Some w =>
                                match go xs' ys' ss' es' with
@@ -403,7 +409,7 @@ Section Walk.
               match (fix go (xs ys : list value) : option (bool * list value * list region) :=
                        match xs, ys with
                        | x :: xs', y :: ys' =>
-                           match walk k r x y with
+                           match walk k nend r x y with
                            | None => None
                            | Some w =>
                                match go xs' ys' with
@@ -433,7 +439,7 @@ Section Walk.
                        | Modified :: es' =>
                            match xs, ys, regs with
                            | x :: xs', y :: ys', rg :: regs' =>
-                               match walk k rg x y with
+                               match walk k nend rg x y with
                                | None => None
                                | Some w =>
                                    match go es' xs' ys' regs' with
@@ -481,7 +487,7 @@ Definition the_script (xs ys : list value) : list edit :=
 
 (* Snapshot.Diff *)
 Definition diff_snapshot (from to : value) : option wres :=
-  walk the_script (S (vdepth from)) (vpos from, vend from) from to.
+  walk the_script (S (vdepth from)) nopos (vpos from, vend from) from to.
 
 (* engine.Changelog.Changed: a span that starts at NoPos is not recorded; the others go to the
    "plus" set of Model/Comments.v *)
@@ -569,7 +575,7 @@ Definition file_decls (from : value) : option (region * list value) :=
   | VRef _ _ (VStruct _ cs) =>
       let r := (vpos from, vend from) in
       let ss := starts_of cs (fst r) in
-      first_node_slice cs ss (fst (ends_of cs ss (snd r)))
+      first_node_slice cs ss (fst (ends_of (vend from) cs ss (snd r)))
   | _ => None
   end.
 
